@@ -1,11 +1,199 @@
 import Driver.Util
-/- line-protocol commands of the Schema family (stub: filled in by the family's build) -/
+import AsyncFix.Model.Schema
+import AsyncFix.Model.SchemaResolve
+/-!
+Line-protocol commands of the Schema family (`sch.*`).  All strings (tags, names, values) are
+`x<hex>` tokens; counts are decimal; flags are `0`/`1`.
+
+  sch.reset                                   forget the dictionary
+  sch.field  <tag> <name> <type> <hasEnum>    declare a field
+  sch.header  <n> <members>                   member list: `f <tag> <req>` | `g <tag> <req> <k> <k members>`
+  sch.trailer <n> <members>
+  sch.msg <msgtype> <n> <members>
+  sch.wf                                      evaluate `schemaWF` → `wf <0|1> fields=.. messages=..`
+  sch.validate <msgtype> <n> <nodes>          node: `p <tag> <value> <verdict>` | `c <tag> <n|r|o>`
+                                                    | `g <tag> <items> { <k> <k nodes> }`
+                                              verdict = what the real `validate_value` said for
+                                              (field, value); the model's `vv` is the set of pairs
+                                              sent with verdict 1
+  sch.rreset / sch.rdecl <name> <n> <decls>   abstract component declarations:
+                                              `f <name> <req>` | `c <name>` | `g <name> <req> <k> <k decls>`
+  sch.resolve                                 run the resolver model → `ok <n> {<name> <k> <members>}` |
+                                              `runtime <names>` | `assertion`
+  sch.rexpand <n> <decls>                     expand a message/header body in the resolved environment
+-/
 namespace Driver.Schema
+open AsyncFix.Model.Schema AsyncFix.Model.SchemaResolve
 
 structure St where
-  unit : Unit := ()
+  sch : Schema := { fields := [], header := [], trailer := [], messages := [] }
+  decls : List CDecl := []
+  env : Env := []
+
+def bit : String → Option Bool
+  | "0" => some false
+  | "1" => some true
+  | _ => none
+
+def parseMembers : Nat → Nat → List String → Option (List Member × List String)
+  | 0, _, _ => none
+  | _ + 1, 0, toks => some ([], toks)
+  | fuel + 1, n + 1, "f" :: t :: r :: toks => do
+    let t ← Driver.tokStr t
+    let r ← bit r
+    let (ms, rest) ← parseMembers fuel n toks
+    pure (.field t r :: ms, rest)
+  | fuel + 1, n + 1, "g" :: t :: r :: k :: toks => do
+    let t ← Driver.tokStr t
+    let r ← bit r
+    let k ← k.toNat?
+    let (gm, rest) ← parseMembers fuel k toks
+    let (ms, rest') ← parseMembers fuel n rest
+    pure (.group t r gm :: ms, rest')
+  | _, _, _ => none
+
+def parseMemberList (args : List String) : Option (List Member) :=
+  match args with
+  | n :: toks => do
+    let n ← n.toNat?
+    let (ms, rest) ← parseMembers (toks.length + 2) n toks
+    if rest.isEmpty then some ms else none
+  | [] => none
+
+abbrev Pairs := List (Tag × String)
+
+mutual
+def parseNodes : Nat → Nat → List String → Option (List Node × Pairs × List String)
+  | 0, _, _ => none
+  | _ + 1, 0, toks => some ([], [], toks)
+  | fuel + 1, n + 1, "p" :: t :: v :: b :: toks => do
+    let t ← Driver.tokStr t
+    let v ← Driver.tokStr v
+    let b ← bit b
+    let (ns, ps, rest) ← parseNodes fuel n toks
+    pure (.plain t v :: ns, (if b then (t, v) :: ps else ps), rest)
+  | fuel + 1, n + 1, "c" :: t :: k :: toks => do
+    let t ← Driver.tokStr t
+    let k ← (match k with | "n" => some ClsKind.notFound | "r" => some .repeating | "o" => some .other | _ => none)
+    let (ns, ps, rest) ← parseNodes fuel n toks
+    pure (.cls t k :: ns, ps, rest)
+  | fuel + 1, n + 1, "g" :: t :: k :: toks => do
+    let t ← Driver.tokStr t
+    let k ← k.toNat?
+    let (items, ps1, rest) ← parseItems fuel k toks
+    let (ns, ps2, rest') ← parseNodes fuel n rest
+    pure (.group t items :: ns, ps1 ++ ps2, rest')
+  | _, _, _ => none
+def parseItems : Nat → Nat → List String → Option (List (List Node) × Pairs × List String)
+  | 0, _, _ => none
+  | _ + 1, 0, toks => some ([], [], toks)
+  | fuel + 1, n + 1, k :: toks => do
+    let k ← k.toNat?
+    let (it, ps1, rest) ← parseNodes fuel k toks
+    let (its, ps2, rest') ← parseItems fuel n rest
+    pure (it :: its, ps1 ++ ps2, rest')
+  | _, _, _ => none
+end
+
+def parseDecls : Nat → Nat → List String → Option (List Decl × List String)
+  | 0, _, _ => none
+  | _ + 1, 0, toks => some ([], toks)
+  | fuel + 1, n + 1, "f" :: t :: r :: toks => do
+    let t ← Driver.tokStr t
+    let r ← bit r
+    let (ms, rest) ← parseDecls fuel n toks
+    pure (.field t r :: ms, rest)
+  | fuel + 1, n + 1, "c" :: t :: toks => do
+    let t ← Driver.tokStr t
+    let (ms, rest) ← parseDecls fuel n toks
+    pure (.comp t :: ms, rest)
+  | fuel + 1, n + 1, "g" :: t :: r :: k :: toks => do
+    let t ← Driver.tokStr t
+    let r ← bit r
+    let k ← k.toNat?
+    let (gm, rest) ← parseDecls fuel k toks
+    let (ms, rest') ← parseDecls fuel n rest
+    pure (.group t r gm :: ms, rest')
+  | _, _, _ => none
+
+def parseDeclList (args : List String) : Option (List Decl) :=
+  match args with
+  | n :: toks => do
+    let n ← n.toNat?
+    let (ms, rest) ← parseDecls (toks.length + 2) n toks
+    if rest.isEmpty then some ms else none
+  | [] => none
+
+def b01 (b : Bool) : String := if b then "1" else "0"
+
+mutual
+def showRMems : List RMem → String
+  | [] => ""
+  | m :: rest => " " ++ showRMem m ++ showRMems rest
+def showRMem : RMem → String
+  | .field n r => "f " ++ Driver.strTok n ++ " " ++ b01 r
+  | .group n r ms => "g " ++ Driver.strTok n ++ " " ++ b01 r ++ " " ++ toString ms.length ++ showRMems ms
+end
+
+def showEnv (env : Env) : String :=
+  toString env.length ++ String.join (env.map fun (n, ms) =>
+    " " ++ Driver.strTok n ++ " " ++ toString ms.length ++ showRMems ms)
+
+def showOutcome : Outcome → String
+  | .ok => "ok"
+  | .raised .msgError => "raised msgError"
+  | .raised .foreign => "raised foreign"
 
 def handle (st : St) (cmd : String) (args : List String) : St × String :=
-  (st, "bad-op")
+  match cmd, args with
+  | "reset", [] => ({ st with sch := { fields := [], header := [], trailer := [], messages := [] } }, "ok")
+  | "field", [t, n, ty, e] =>
+    match Driver.tokStr t, Driver.tokStr n, Driver.tokStr ty, bit e with
+    | some t, some n, some ty, some e =>
+      ({ st with sch := { st.sch with fields := st.sch.fields ++ [{ tag := t, name := n, ftype := ty, hasEnum := e }] } }, "ok")
+    | _, _, _, _ => (st, "bad-op")
+  | "header", args =>
+    match parseMemberList args with
+    | some ms => ({ st with sch := { st.sch with header := ms } }, "ok")
+    | none => (st, "bad-op")
+  | "trailer", args =>
+    match parseMemberList args with
+    | some ms => ({ st with sch := { st.sch with trailer := ms } }, "ok")
+    | none => (st, "bad-op")
+  | "msg", ty :: args =>
+    match Driver.tokStr ty, parseMemberList args with
+    | some ty, some ms => ({ st with sch := { st.sch with messages := st.sch.messages ++ [(ty, ms)] } }, "ok")
+    | _, _ => (st, "bad-op")
+  | "wf", [] =>
+    (st, "wf " ++ b01 (schemaWF st.sch) ++ " fields=" ++ toString st.sch.fields.length
+      ++ " messages=" ++ toString st.sch.messages.length
+      ++ " header=" ++ toString st.sch.header.length ++ " trailer=" ++ toString st.sch.trailer.length)
+  | "validate", ty :: n :: toks =>
+    match Driver.tokStr ty, n.toNat? with
+    | some ty, some n =>
+      match parseNodes (toks.length + 2) n toks with
+      | some (ns, ps, []) =>
+        let vv : Tag → String → Bool := fun t s => ps.any fun p => p.1 = t && p.2 = s
+        (st, showOutcome (validate vv st.sch { msgType := ty, tags := ns }))
+      | _ => (st, "bad-op")
+    | _, _ => (st, "bad-op")
+  | "rreset", [] => ({ st with decls := [], env := [] }, "ok")
+  | "rdecl", n :: args =>
+    match Driver.tokStr n, parseDeclList args with
+    | some n, some body => ({ st with decls := st.decls ++ [(n, body)] }, "ok")
+    | _, _ => (st, "bad-op")
+  | "resolve", [] =>
+    match resolve st.decls with
+    | .ok env => ({ st with env := env }, "ok " ++ showEnv env)
+    | .runtimeError names => (st, "runtime" ++ String.join (names.map fun n => " " ++ Driver.strTok n))
+    | .assertion => (st, "assertion")
+  | "rexpand", args =>
+    match parseDeclList args with
+    | some body =>
+      match expandTop st.env body with
+      | some ms => (st, "ok " ++ toString ms.length ++ showRMems ms)
+      | none => (st, "fail")
+    | none => (st, "bad-op")
+  | _, _ => (st, "bad-op")
 
 end Driver.Schema
